@@ -384,7 +384,7 @@ def run_shard(shard, tier, seed):
         c14.run_history(sub, c14.HIST_PATHS[shard[1]], tier)
         rep.evaluations, rep.transitions, rep.cases, rep.nontrivial, rep.outcomes, rep.samples = sub.evaluations, sub.transitions, sub.cases, sub.nontrivial, sub.outcomes, sub.samples
         for sig, vs in sub.violations.items():
-            if sig.endswith(("/requests", "/forward")):
+            if sig.endswith(("/requests", "/forward", "/alone")):
                 for v in vs:
                     rep.violation("route-" + sig, v.msg, {"kind": "route-history", "shard": shard[1], "case": v.replay["case"]})
                 rep.viol_counts["route-" + sig] = sub.viol_counts[sig]
